@@ -14,7 +14,11 @@ EXPLANATION = (
     "each forbidden combination and every rejecting path must entail one (no spurious rejection); every rejection is a "
     "failed Deferred / raise whose exception class derives from ValueError or TypeError (resolved in error.py, "
     "unbound names on the raise path included); no rejecting path contains a write, registry insertion, timer or "
-    "state change; no validation exception escapes the API call. Decides the guards for all paths, not run-time values.")
+    "state change; no validation exception escapes the API call; G-STRBOUND - the over-long-string refusal lives in the "
+    "encoders the API calls feed: encodeString compares the encoded byte count with exactly 65535 and raises a ValueError "
+    "subclass, encode16Int range-checks by item assignment into a 2-byte bytearray, and every length prefix CONNECT / "
+    "PUBLISH / SUBSCRIBE / UNSUBSCRIBE emit counts the very bytes appended after it (a character count would let a "
+    "multi-byte string past the check). Decides the guards for all paths, not run-time values.")
 ASSUMPTIONS = ["arguments compared against integer bounds are integers (strict bounds normalised to inclusive ones)"]
 
 INF = 10 ** 12
@@ -186,6 +190,46 @@ def check(ctx):
             elif op == "unsubscribe":
                 _spurious(ctx, cls, op, reject, {}, [], w, ent, type_checks=True)
     ctx.floor("request operations analysed", n_ops, 9)
+    _string_bounds(ctx, prog)
+
+
+def _string_bounds(ctx, prog):
+    """G-STRBOUND: "any string over 65535 bytes" is refused.  The refusal lives in the encoders the API calls feed
+    (their exceptions are the ones the G-EXC/G-FAILRET rules see surfacing): it holds iff (a) encodeString compares the
+    number of encoded bytes with exactly 65535 and raises a ValueError subclass, (b) encode16Int stores into a 2-byte
+    bytearray without masking the high part (the item assignment is the range check), and (c) every length-prefixed
+    string an encoder of an API-built packet emits is prefixed with the count of the very bytes appended after it."""
+    from ..codec_prims import check_primitives
+    from ..codec_cmp import compare_class
+    from .c01 import loc
+    mod = prog.modules.get("mqtt.pdu")
+    probs, facts = check_primitives(prog)
+    n = 0
+    for pr in probs:
+        rel = (pr.rule == "S7") or (pr.rule == "L5") or (pr.rule == "L1" and pr.cls.startswith("encode16Int") and pr.what in ("width", "hi", "lo"))
+        if rel:
+            n += 1
+            ctx.ob("G-STRBOUND", "%s %s" % (pr.cls, pr.what), False, where=loc(pr.node), function="mqtt.pdu.%s" % pr.cls.split("/")[0],
+                   construct="mqtt.pdu.%s/%s" % (pr.cls, pr.what), msg="over-long strings are not refused: " + pr.msg)
+    if not n:
+        ctx.ob("G-STRBOUND", "encodeString refuses more than 65535 encoded bytes with a ValueError; encode16Int range-checks by item assignment",
+               True, where="src/mqtt/pdu.py", construct="mqtt.pdu.encodeString/bound")
+    seen = 0
+    for name in ("CONNECT", "PUBLISH", "SUBSCRIBE", "UNSUBSCRIBE"):
+        c = mod.classes.get(name)
+        if c is None or "encode" not in c.methods:
+            raise AnalysisError("anchor vanished: mqtt.pdu.%s.encode" % name)
+        problems, stats, encm, decm = compare_class(prog, c)
+        bad = [q for q in problems if q.rule == "L5"]
+        seen += 1
+        for q in bad:
+            ctx.ob("G-STRBOUND", "%s %s" % (name, q.what), False, where=loc(q.node, "src/mqtt/pdu.py:%d" % c.node.lineno),
+                   function="mqtt.pdu.%s.encode" % name, construct="mqtt.pdu.%s/%s" % (name, q.what),
+                   msg="a string of more than 65535 bytes can pass the 16-bit range check: " + q.msg)
+        if not bad:
+            ctx.ob("G-STRBOUND", "%s.encode: every length prefix counts the bytes appended after it" % name, True,
+                   where="src/mqtt/pdu.py:%d" % c.node.lineno, construct="mqtt.pdu.%s/prefixes" % name)
+    ctx.floor("API-built packet encoders checked for string bounds", seen, 4)
 
 
 def _id_alloc(e):
